@@ -35,9 +35,12 @@ var (
 	rxFullWordCounter   = regexp.MustCompile(`[\x{3040}-\x{A4CF}]`)
 	rxLetterWordCounter = regexp.MustCompile(`[\x{AC00}-\x{D7AF}]`)
 
-	rxWordMatcher1 = regexp.MustCompile(`(\S*[\w\x{00C0}-\x{1FFF}\x{AC00}-\x{D7AF}]\S*)`)
+	// In the JavaScript patterns of the original `\S` is everything but Unicode white space. In Go
+	// it is everything but ASCII white space, so the class is spelled out (a no-break space or
+	// an ideographic space separates words as well).
+	rxWordMatcher1 = regexp.MustCompile(`([^\s\x{000B}\x{0085}\p{Z}]*[\w\x{00C0}-\x{1FFF}\x{AC00}-\x{D7AF}][^\s\x{000B}\x{0085}\p{Z}]*)`)
 	rxWordMatcher2 = regexp.MustCompile(`([\x{3040}-\x{A4CF}])`)
-	rxWordMatcher3 = regexp.MustCompile(`(\S*[\w\x{00C0}-\x{1FFF}]\S*)`)
+	rxWordMatcher3 = regexp.MustCompile(`([^\s\x{000B}\x{0085}\p{Z}]*[\w\x{00C0}-\x{1FFF}][^\s\x{000B}\x{0085}\p{Z}]*)`)
 )
 
 // WordCounter is object for counting the number of words. For some languages,
